@@ -57,12 +57,12 @@ pub fn expr_sexp(e: &Expr) -> Option<String> {
             _ => return None,
         },
         Expr::Nested(x) => format!("(nested {})", expr_sexp(x)?),
-        Expr::UnaryOp { op, expr } => format!("(un {op:?} {})", expr_sexp(expr)?),
-        Expr::BinaryOp { left, op, right } => format!("(bin {} {} {})", binop_name(op)?, expr_sexp(left)?, expr_sexp(right)?),
-        Expr::AnyOp { left, compare_op, right, is_some } => {
+        Expr::UnaryOp { op, expr, .. } => format!("(un {op:?} {})", expr_sexp(expr)?),
+        Expr::BinaryOp { left, op, right, .. } => format!("(bin {} {} {})", binop_name(op)?, expr_sexp(left)?, expr_sexp(right)?),
+        Expr::AnyOp { left, compare_op, right, is_some, .. } => {
             format!("(any {} {} {} {})", binop_name(compare_op)?, b(*is_some), expr_sexp(left)?, expr_sexp(right)?)
         }
-        Expr::AllOp { left, compare_op, right } => format!("(all {} {} {})", binop_name(compare_op)?, expr_sexp(left)?, expr_sexp(right)?),
+        Expr::AllOp { left, compare_op, right, .. } => format!("(all {} {} {})", binop_name(compare_op)?, expr_sexp(left)?, expr_sexp(right)?),
         Expr::IsNull(x) => format!("(is Null {})", expr_sexp(x)?),
         Expr::IsNotNull(x) => format!("(is NotNull {})", expr_sexp(x)?),
         Expr::IsTrue(x) => format!("(is True {})", expr_sexp(x)?),
@@ -73,22 +73,22 @@ pub fn expr_sexp(e: &Expr) -> Option<String> {
         Expr::IsNotUnknown(x) => format!("(is NotUnknown {})", expr_sexp(x)?),
         Expr::IsDistinctFrom(a, c) => format!("(isdf 0 {} {})", expr_sexp(a)?, expr_sexp(c)?),
         Expr::IsNotDistinctFrom(a, c) => format!("(isdf 1 {} {})", expr_sexp(a)?, expr_sexp(c)?),
-        Expr::InList { expr, list, negated } => {
+        Expr::InList { expr, list, negated, .. } => {
             let mut items = vec![];
             for x in list {
                 items.push(expr_sexp(x)?);
             }
             format!("(inlist {} {} (list{}))", b(*negated), expr_sexp(expr)?, items.iter().map(|s| format!(" {s}")).collect::<String>())
         }
-        Expr::Between { expr, negated, low, high } => {
+        Expr::Between { expr, negated, low, high, .. } => {
             format!("(between {} {} {} {})", b(*negated), expr_sexp(expr)?, expr_sexp(low)?, expr_sexp(high)?)
         }
-        Expr::Like { negated, any, expr, pattern, escape_char } => like_sexp("Like", *negated, *any, expr, pattern, escape_char)?,
-        Expr::ILike { negated, any, expr, pattern, escape_char } => like_sexp("ILike", *negated, *any, expr, pattern, escape_char)?,
-        Expr::SimilarTo { negated, expr, pattern, escape_char } => like_sexp("SimilarTo", *negated, false, expr, pattern, escape_char)?,
-        Expr::RLike { negated, expr, pattern, regexp } => like_sexp(if *regexp { "Regexp" } else { "RLike" }, *negated, false, expr, pattern, &None)?,
-        Expr::AtTimeZone { timestamp, time_zone } => format!("(attz {} {})", expr_sexp(timestamp)?, expr_sexp(time_zone)?),
-        Expr::Cast { kind: CastKind::DoubleColon, expr, data_type, format: None } => {
+        Expr::Like { negated, any, expr, pattern, escape_char, .. } => like_sexp("Like", *negated, *any, expr, pattern, escape_char)?,
+        Expr::ILike { negated, any, expr, pattern, escape_char, .. } => like_sexp("ILike", *negated, *any, expr, pattern, escape_char)?,
+        Expr::SimilarTo { negated, expr, pattern, escape_char, .. } => like_sexp("SimilarTo", *negated, false, expr, pattern, escape_char)?,
+        Expr::RLike { negated, expr, pattern, regexp, .. } => like_sexp(if *regexp { "Regexp" } else { "RLike" }, *negated, false, expr, pattern, &None)?,
+        Expr::AtTimeZone { timestamp, time_zone, .. } => format!("(attz {} {})", expr_sexp(timestamp)?, expr_sexp(time_zone)?),
+        Expr::Cast { kind: CastKind::DoubleColon, expr, data_type, format: None, .. } => {
             let t = simple_type(data_type)?;
             format!("(cast {} {})", expr_sexp(expr)?, hx(&t))
         }
@@ -723,7 +723,7 @@ pub fn setexpr_sexp(e: &SetExpr) -> Option<String> {
     Some(match e {
         SetExpr::Select(s) => select_sexp(s)?,
         SetExpr::Query(q) => format!("(query {})", query_body_sexp(q)?),
-        SetExpr::SetOperation { op, set_quantifier, left, right } => {
+        SetExpr::SetOperation { op, set_quantifier, left, right, .. } => {
             let o = match op {
                 SetOperator::Union => "union",
                 SetOperator::Except => "except",
